@@ -48,6 +48,21 @@ class PyRaise(Exception):
         return isinstance(self.cls, ClassInfo)
 
 
+class NonTerminationMarker:
+    """Placeholder so that budget exhaustion is never caught by interpreted handlers."""
+
+
+class _ExcValue:
+    """`except X as e`: what interpreted code may do with e (str(), .args, re-raise)."""
+
+    def __init__(self, e: "PyRaise"):
+        self.e = e
+        self.args = tuple(e.args_)
+
+    def __str__(self):
+        return str(self.args[0]) if len(self.args) == 1 else (str(self.args) if self.args else "")
+
+
 class _Return(Exception):
     def __init__(self, value):
         self.value = value
@@ -235,13 +250,51 @@ import io as _io_mod
 import types as _types
 # only pure, side-effect free names of external modules are visible to interpreted code
 import functools as _functools_mod
-_EXT_MODULES = {"re": re, "string": string, "functools": _types.SimpleNamespace(reduce=_functools_mod.reduce),
+import itertools as _itertools_mod
+import collections as _collections_mod
+
+
+class _Partial:
+    """functools.partial over interpreted callables."""
+
+    def __init__(self, func, args, kwargs):
+        self.func, self.args, self.kwargs = func, list(args), dict(kwargs)
+
+
+class _OpFn:
+    """A function of the `operator` module, applied through the interpreter (operands may be library objects)."""
+
+    def __init__(self, name, *cfg, **kcfg):
+        self.name, self.cfg, self.kcfg = name, cfg, kcfg
+
+    def __call__(self, *cfg, **kcfg):          # operator.methodcaller("m", 1) / attrgetter("a") / itemgetter(0)
+        return _OpFn(self.name + "()", *cfg, **kcfg)
+
+
+_OP_BIN = {"add": ast.Add, "sub": ast.Sub, "mul": ast.Mult, "or_": ast.BitOr, "and_": ast.BitAnd, "mod": ast.Mod,
+           "floordiv": ast.FloorDiv, "truediv": ast.Div, "pow": ast.Pow, "concat": ast.Add}
+_OP_CMP = {"eq": ast.Eq, "ne": ast.NotEq, "lt": ast.Lt, "le": ast.LtE, "gt": ast.Gt, "ge": ast.GtE, "is_": ast.Is,
+           "is_not": ast.IsNot}
+_OPERATOR_NS = _types.SimpleNamespace(**{n: _OpFn(n) for n in list(_OP_BIN) + list(_OP_CMP) +
+                                        ["methodcaller", "attrgetter", "itemgetter", "not_", "truth", "contains", "getitem", "neg"]})
+
+# only pure, side-effect free names of external modules are visible to interpreted code
+_EXT_MODULES = {"re": re, "string": string,
+                "functools": _types.SimpleNamespace(reduce=_functools_mod.reduce, partial=_Partial),
+                "itertools": _types.SimpleNamespace(**{n: getattr(_itertools_mod, n) for n in (
+                    "chain", "pairwise", "product", "groupby", "takewhile", "dropwhile", "islice", "zip_longest", "repeat",
+                    "accumulate", "starmap", "combinations", "permutations", "count", "cycle", "compress", "filterfalse", "tee")}),
+                "operator": _OPERATOR_NS,
+                "collections": _types.SimpleNamespace(deque=_collections_mod.deque, OrderedDict=dict, namedtuple=_collections_mod.namedtuple),
+                "types": _types.SimpleNamespace(MappingProxyType=lambda d: d, SimpleNamespace=_types.SimpleNamespace),
+                "dataclasses": _types.SimpleNamespace(dataclass="<dataclass>", field="<field>"),
                 "io": _types.SimpleNamespace(DEFAULT_BUFFER_SIZE=_io_mod.DEFAULT_BUFFER_SIZE, SEEK_SET=0, SEEK_CUR=1, SEEK_END=2)}
 
 
 class Interp:
     MAX_DEPTH = 60
     interpret_exception_init = True
+    _handling = ()
 
     def __init__(self, model: Model, hooks: Hooks | None = None, decisions=None, fuel=400000):
         self.model = model
@@ -250,6 +303,8 @@ class Interp:
         self.trace: list[tuple[int, int, str]] = []   # (chosen, n, tag)
         self.fuel = fuel
         self._class_attr_cache = {}
+        self._nt_types = {}       # ClassInfo of a typing.NamedTuple class -> generated namedtuple type
+        self._nt_by_type = {}
         self.events: list = []
         self.stack: list[Frame] = []
 
@@ -305,8 +360,8 @@ class Interp:
                 return self._module_env_lookup(self.model.modules[mod], nm, frame)
             if mod in _EXT_MODULES:
                 return getattr(_EXT_MODULES[mod], nm)
-            if mod == "typing":
-                return getattr(__import__("typing"), nm)
+            if mod in ("typing", "enum"):
+                return getattr(__import__(mod), nm)
             raise Incomplete(f"from-import of {mod} not modelled")
         if name in module.assigns:
             key = (module.name, name)
@@ -364,6 +419,10 @@ class Interp:
             if m is not None:
                 if m.is_static:
                     return FuncRef(m)
+                if m.is_classmethod:
+                    return FuncRef(m, ClassRef(v.cls), True)
+                if m.is_property:
+                    return self._call_func(m, [v], {}, node)
                 return FuncRef(m, v, True)
             c, expr = v.cls.find_attr(name)
             if c is not None:
@@ -375,12 +434,19 @@ class Interp:
                 return ci.name
             if any("Enum" in b for b in ci.external_bases()):
                 c, expr = ci.find_attr(name)
-                if c is None:
+                if c is not None:
+                    return EnumVal(ci, name, self._class_attr(c, name))
+                m = ci.find_method(name)
+                if m is None:
                     raise PyRaise(AttributeError, (name,), node)
-                return EnumVal(ci, name, self._class_attr(c, name))
+                return FuncRef(m, v, True) if m.is_classmethod else FuncRef(m)
             m = ci.find_method(name)
             if m is not None:
+                if m.is_classmethod:
+                    return FuncRef(m, v, True)
                 return FuncRef(m)
+            if name == "_fields" and any(b.split(".")[-1] == "NamedTuple" for b in ci.external_bases()):
+                return tuple(n for n, _ in ci.fields)
             c, expr = ci.find_attr(name)
             if c is not None:
                 return self._class_attr(c, name)
@@ -400,6 +466,31 @@ class Interp:
                 return v.name
             if name == "value":
                 return v.value
+            m = v.ci.find_method(name)
+            if m is not None:
+                if m.is_static:
+                    return FuncRef(m)
+                if m.is_classmethod:
+                    return FuncRef(m, ClassRef(v.ci), True)
+                if m.is_property:
+                    return self._call_func(m, [v], {}, node)
+                return FuncRef(m, v, True)
+            c, expr = v.ci.find_attr(name)
+            if c is not None:
+                return EnumVal(v.ci, name, self._class_attr(c, name))
+        nt = self._nt_by_type.get(type(v))
+        if nt is not None and name not in ("count", "index"):
+            m = nt.find_method(name)
+            if m is not None:
+                if m.is_static:
+                    return FuncRef(m)
+                if m.is_classmethod:
+                    return FuncRef(m, ClassRef(nt), True)
+                if m.is_property:
+                    return self._call_func(m, [v], {}, node)
+                return FuncRef(m, v, True)
+            if name == "_replace":
+                return NativeMethod(lambda it, a, kw: v._replace(**kw))
         if isinstance(v, (Closure, FuncRef)):
             raise Incomplete(f"attribute {name} of function not modelled")
         try:
@@ -425,6 +516,12 @@ class Interp:
             return self._call_closure(f, args, kwargs, node)
         if isinstance(f, ClassRef):
             return self._construct(f.ci, args, kwargs, node)
+        if f is _Partial:
+            return _Partial(args[0], args[1:], kwargs)
+        if isinstance(f, _Partial):
+            return self._call_value(f.func, f.args + list(args), {**f.kwargs, **kwargs}, node, frame)
+        if isinstance(f, _OpFn):
+            return self._call_opfn(f, args, kwargs, node)
         if isinstance(f, Native):
             return f.sa_call(self, args, kwargs)
         if isinstance(f, NativeMethod):
@@ -442,6 +539,53 @@ class Interp:
         if callable(f):
             return self._call_python(f, args, kwargs, node)
         raise PyRaise(TypeError, (f"{f!r} is not callable",), node)
+
+    def _call_opfn(self, f, args, kwargs, node):
+        n = f.name
+        if n in ("methodcaller", "attrgetter", "itemgetter"):
+            return _OpFn(n + "()", *args, **kwargs)
+        if n == "methodcaller()":
+            m = self.getattr(args[0], f.cfg[0], None, node)
+            return self._call_value(m, list(f.cfg[1:]), dict(f.kcfg), node)
+        if n == "attrgetter()":
+            outs = []
+            for path in f.cfg:
+                v = args[0]
+                for part in path.split("."):
+                    v = self.getattr(v, part, None, node)
+                outs.append(v)
+            return outs[0] if len(outs) == 1 else tuple(outs)
+        if n == "itemgetter()":
+            outs = [self.subscript(args[0], k, node) for k in f.cfg]
+            return outs[0] if len(outs) == 1 else tuple(outs)
+        if n in _OP_BIN:
+            return self.binop(_OP_BIN[n](), args[0], args[1], node)
+        if n in _OP_CMP:
+            return self.compare(_OP_CMP[n](), args[0], args[1], node)
+        if n == "not_":
+            return not self.truth(args[0], node)
+        if n == "truth":
+            return self.truth(args[0], node)
+        if n == "contains":
+            return self.compare(ast.In(), args[1], args[0], node)
+        if n == "getitem":
+            return self.subscript(args[0], args[1], node)
+        if n == "neg":
+            return -args[0]
+        raise Incomplete(f"operator.{n} not modelled")
+
+    def subscript(self, v, k, node=None):
+        if isinstance(v, (Obj, ClassRef, Closure, FuncRef)):
+            raise PyRaise(TypeError, ("object is not subscriptable",), node)
+        if isinstance(v, Native):
+            g = getattr(v, "sa_getitem", None)
+            if g is None:
+                raise Incomplete("subscript of native object")
+            return g(self, k)
+        try:
+            return v[k]
+        except _PY_EXC as ex:
+            raise PyRaise(type(ex), ex.args, node)
 
     def _call_python(self, f, args, kwargs, node):
         r = self.hooks.intercept_py(self, f, args, kwargs, node)
@@ -475,7 +619,10 @@ class Interp:
         for a in list(args) + list(kwargs.values()):
             if isinstance(a, (Obj, Native, ClassRef, Lazy)):
                 if f in (tuple, list, set, frozenset, dict) or \
-                        isinstance(getattr(f, "__self__", None), (list, dict, set)):
+                        isinstance(getattr(f, "__self__", None), (list, dict, set, _collections_mod.deque)) or \
+                        f is _collections_mod.deque or getattr(f, "__module__", None) == "itertools" or \
+                        (isinstance(f, type) and f.__module__ == "itertools") or isinstance(getattr(f, "__self__", None), type) and \
+                        getattr(f.__self__, "__module__", None) == "itertools":
                     continue
                 raise Incomplete(f"library object passed to stdlib callable {getattr(f, '__name__', f)} "
                                  f"at line {getattr(node, 'lineno', '?')}")
@@ -552,6 +699,10 @@ class Interp:
         if isinstance(v, Lazy):
             raise Incomplete("isinstance on unresolved value")
         if isinstance(t, ClassRef):
+            if type(v) in self._nt_by_type:
+                return t.ci in self._nt_by_type[type(v)].mro()
+            if isinstance(v, EnumVal):
+                return t.ci in v.ci.mro()
             if isinstance(v, Obj):
                 return t.ci in v.cls.mro()
             if isinstance(v, Native):
@@ -598,6 +749,13 @@ class Interp:
             return str(v)
         if isinstance(v, (ClassRef, Closure, FuncRef, Lazy, ModuleRef)):
             raise Incomplete(f"str() of {v!r}")
+        if isinstance(v, _ExcValue):
+            return str(v)
+        nt = self._nt_by_type.get(type(v))
+        if nt is not None:
+            m = nt.find_method("__str__") or nt.find_method("__repr__")
+            if m is not None:
+                return self._call_func(m, [v], {}, node)
         return str(v)
 
     def to_repr(self, v, node=None):
@@ -683,7 +841,7 @@ class Interp:
             # generators are evaluated eagerly: the list of yielded values stands for the iterator
             frame.yields = []
             self._run_body(func.node.body, env, frame)
-            return frame.yields
+            return iter(frame.yields)
         return self._run_body(func.node.body, env, frame)
 
     def _call_closure(self, c: Closure, args, kwargs, node):
@@ -699,9 +857,10 @@ class Interp:
                 return self.eval(c.node.body, env, frame)
             finally:
                 self.stack.pop()
-        for sub in ast.walk(c.node):
-            if isinstance(sub, (ast.Yield, ast.YieldFrom)):
-                raise Incomplete(f"generator {c.name} is not interpreted")
+        if _is_generator(c.node):
+            frame.yields = []
+            self._run_body(c.node.body, env, frame)
+            return iter(frame.yields)
         return self._run_body(c.node.body, env, frame)
 
     def _run_body(self, body, env, frame):
@@ -720,9 +879,18 @@ class Interp:
             return r
         ext = ci.external_bases()
         if any("Enum" in b for b in ext):
-            raise Incomplete("enum construction by value not modelled")
+            if len(args) == 1 and not kwargs:      # Kind(value): the member with that value
+                for nm in ci.attrs:
+                    if self._equal(self._class_attr(ci, nm), args[0]):
+                        return EnumVal(ci, nm, self._class_attr(ci, nm))
+                raise PyRaise(ValueError, (f"{args[0]!r} is not a valid {ci.name}",), node)
+            raise Incomplete("enum construction not modelled")
+        if any(b.split(".")[-1] == "NamedTuple" for b in ext):
+            return self._make_record(ci, args, kwargs, node, as_tuple=True)
+        if any("dataclass" in d for d in ci.decorators) and ci.find_method("__init__") is None:
+            return self._make_record(ci, args, kwargs, node, as_tuple=False)
         o = Obj(ci)
-        if "Exception" in ext:
+        if any(b.split(".")[-1] in ("Exception", "BaseException", "ValueError", "TypeError") for b in ext):
             o.fields["args"] = tuple(args)
             # the constructor is interpreted too: if building the message fails, that failure is what the caller sees
             init = ci.find_method("__init__")
@@ -738,6 +906,42 @@ class Interp:
             self._call_func(init, [o] + args, kwargs, node)
         elif args or kwargs:
             raise PyRaise(TypeError, (f"{ci.name}() takes no arguments",), node)
+        return o
+
+    def _make_record(self, ci, args, kwargs, node, as_tuple):
+        """Instance of a typing.NamedTuple class (a real namedtuple, methods looked up in the class) or of a
+        dataclass without a hand-written __init__ (an object whose fields are bound in declaration order)."""
+        fields = []
+        for c in reversed(ci.mro()):
+            for n, d in c.fields:
+                if n not in [x for x, _ in fields]:
+                    fields.append((n, (c, d)))
+        names = [n for n, _ in fields]
+        if len(args) > len(names):
+            raise PyRaise(TypeError, (f"{ci.name}() takes {len(names)} positional arguments but {len(args)} were given",), node)
+        vals = dict(zip(names, args))
+        for k, v in kwargs.items():
+            if k not in names or k in vals:
+                raise PyRaise(TypeError, (f"{ci.name}() got an unexpected or duplicate argument {k!r}",), node)
+            vals[k] = v
+        for n, (c, d) in fields:
+            if n not in vals:
+                if d is None:
+                    raise PyRaise(TypeError, (f"{ci.name}() missing required argument {n!r}",), node)
+                vals[n] = self._class_attr(c, mangle(n, c.name))
+        if as_tuple:
+            typ = self._nt_types.get(ci)
+            if typ is None:
+                typ = _collections_mod.namedtuple(ci.name, names, rename=True)
+                self._nt_types[ci] = typ
+                self._nt_by_type[typ] = ci
+            return typ(*[vals[n] for n in names])
+        o = Obj(ci)
+        for n in names:
+            o.fields[n] = vals[n]
+        post = ci.find_method("__post_init__")
+        if post is not None:
+            self._call_func(post, [o], {}, node)
         return o
 
     # iteration ----------------------------------------------------------------
@@ -786,7 +990,9 @@ class Interp:
                 self.exec_block(st.orelse, env, frame)
         elif t is ast.Raise:
             if st.exc is None:
-                raise Incomplete("bare raise")
+                if self._handling:
+                    raise self._handling[-1]
+                raise Incomplete("bare raise outside a handler")
             exc = st.exc
             if isinstance(exc, ast.Call):
                 cls = self.eval(exc.func, env, frame)
@@ -794,10 +1000,21 @@ class Interp:
             else:
                 cls = self.eval(exc, env, frame)
                 args, kwargs = [], {}
+            if isinstance(cls, _ExcValue):
+                raise cls.e
+            if isinstance(exc, ast.Call) and isinstance(cls, (FuncRef, Closure)):
+                # `raise helper(...)`: the helper builds the exception instance
+                cls = self._call_value(cls, args, kwargs, st, frame)
+                args, kwargs = [], {}
+            if isinstance(cls, Obj) and any(b.split(".")[-1] in ("Exception", "BaseException", "ValueError", "TypeError")
+                                             for b in cls.cls.external_bases()):
+                e = PyRaise(cls.cls, tuple(cls.fields.get("args", ())), st, where=frame.func)
+                self.hooks.on_raise(self, e)
+                raise e
             if isinstance(cls, ClassRef):
                 # the exception's own constructor runs first: if building the message fails, that failure propagates
                 init = cls.ci.find_method("__init__")
-                if init is not None and self.interpret_exception_init and "Exception" in cls.ci.external_bases():
+                if init is not None and self.interpret_exception_init and any(b.split(".")[-1] in ("Exception", "BaseException", "ValueError", "TypeError") for b in cls.ci.external_bases()):
                     fuel = self.fuel
                     try:
                         self._call_func(init, [Obj(cls.ci)] + list(args), dict(kwargs), st)
@@ -847,6 +1064,10 @@ class Interp:
         elif t is ast.FunctionDef:
             name = mangle(st.name, frame.cls.name if frame.cls else None)
             env.vars[name] = Closure(st, env, frame, st.name)
+        elif t is ast.Try:
+            self._exec_try(st, env, frame)
+        elif t is ast.Match:
+            self._exec_match(st, env, frame)
         elif t is ast.With:
             entered = []
             try:
@@ -868,6 +1089,141 @@ class Interp:
                 raise PyRaise(AssertionError, (), st)
         else:
             raise Incomplete(f"statement {t.__name__} at {frame.module.relpath}:{st.lineno} is not modelled")
+
+    # try / except ----------------------------------------------------------------
+    def _handler_matches(self, h, e: PyRaise, env, frame):
+        if h.type is None:
+            return True
+        t = self.eval(h.type, env, frame)
+        for x in (t if isinstance(t, tuple) else (t,)):
+            if isinstance(x, ClassRef):
+                if isinstance(e.cls, ClassInfo) and x.ci in e.cls.mro():
+                    return True
+            elif isinstance(x, type) and issubclass(x, BaseException):
+                if isinstance(e.cls, type) and issubclass(e.cls, x):
+                    return True
+                if isinstance(e.cls, ClassInfo) and x in (Exception, BaseException):
+                    return True
+                if e.cls is NonTerminationMarker:
+                    return False
+            else:
+                raise Incomplete(f"except clause with {x!r}")
+        return False
+
+    def _exec_try(self, st, env, frame):
+        try:
+            try:
+                self.exec_block(st.body, env, frame)
+            except PyRaise as e:
+                for h in st.handlers:
+                    if self._handler_matches(h, e, env, frame):
+                        if h.name:
+                            env.vars[mangle(h.name, frame.cls.name if frame.cls else None)] = _ExcValue(e)
+                        self._handling = tuple(self._handling) + (e,)
+                        try:
+                            self.exec_block(h.body, env, frame)
+                        finally:
+                            self._handling = self._handling[:-1]
+                        break
+                else:
+                    raise
+            else:
+                self.exec_block(st.orelse, env, frame)
+        finally:
+            if st.finalbody:
+                self.exec_block(st.finalbody, env, frame)
+
+    # match / case -----------------------------------------------------------------
+    def _exec_match(self, st, env, frame):
+        subject = self.eval(st.subject, env, frame)
+        for case in st.cases:
+            if self._match(case.pattern, subject, env, frame) and \
+                    (case.guard is None or self.truth(self.eval(case.guard, env, frame), case.guard)):
+                self.exec_block(case.body, env, frame)
+                return
+
+    _BUILTIN_SELF_MATCH = (bool, bytearray, bytes, dict, float, frozenset, int, list, set, str, tuple)
+
+    def _match(self, pat, v, env, frame):
+        t = type(pat)
+        bind = lambda name, val: env.vars.__setitem__(mangle(name, frame.cls.name if frame.cls else None), val)
+        if t is ast.MatchValue:
+            return self.compare(ast.Eq(), v, self.eval(pat.value, env, frame), pat)
+        if t is ast.MatchSingleton:
+            return self._identical(v, pat.value)
+        if t is ast.MatchAs:
+            if pat.pattern is not None and not self._match(pat.pattern, v, env, frame):
+                return False
+            if pat.name is not None:
+                bind(pat.name, v)
+            return True
+        if t is ast.MatchOr:
+            return any(self._match(p, v, env, frame) for p in pat.patterns)
+        if t is ast.MatchSequence:
+            if isinstance(v, Lazy):
+                raise Incomplete("match on unresolved value")
+            if not isinstance(v, (list, tuple)):
+                return False
+            items = list(v)
+            star = [i for i, p in enumerate(pat.patterns) if isinstance(p, ast.MatchStar)]
+            if star:
+                i = star[0]
+                after = len(pat.patterns) - i - 1
+                if len(items) < len(pat.patterns) - 1:
+                    return False
+                ok = all(self._match(p, x, env, frame) for p, x in zip(pat.patterns[:i], items[:i])) and \
+                    all(self._match(p, x, env, frame) for p, x in zip(pat.patterns[i + 1:], items[len(items) - after:]))
+                if ok and pat.patterns[i].name:
+                    bind(pat.patterns[i].name, items[i:len(items) - after])
+                return ok
+            return len(items) == len(pat.patterns) and all(self._match(p, x, env, frame) for p, x in zip(pat.patterns, items))
+        if t is ast.MatchMapping:
+            if not isinstance(v, dict):
+                return False
+            for k, p in zip(pat.keys, pat.patterns):
+                kv = self.eval(k, env, frame)
+                if kv not in v or not self._match(p, v[kv], env, frame):
+                    return False
+            if pat.rest:
+                keys = [self.eval(k, env, frame) for k in pat.keys]
+                bind(pat.rest, {k: x for k, x in v.items() if k not in keys})
+            return True
+        if t is ast.MatchClass:
+            if isinstance(v, Lazy):
+                raise Incomplete("match on unresolved value")
+            cls = self.eval(pat.cls, env, frame)
+            if isinstance(cls, type):
+                if isinstance(v, (Obj, EnumVal, ClassRef, Native, Closure, FuncRef)) or not isinstance(v, cls):
+                    return False
+                if cls is int and isinstance(v, bool) and False:
+                    return False
+                if pat.patterns:
+                    if cls in self._BUILTIN_SELF_MATCH and len(pat.patterns) == 1:
+                        if not self._match(pat.patterns[0], v, env, frame):
+                            return False
+                    else:
+                        raise Incomplete(f"positional class pattern on {cls.__name__}")
+            elif isinstance(cls, ClassRef):
+                if not self.isinstance(v, cls):
+                    return False
+                if pat.patterns:
+                    names = [n for n, _ in cls.ci.fields]
+                    if len(pat.patterns) > len(names):
+                        raise PyRaise(TypeError, ("too many positional sub-patterns",), pat)
+                    for p, n in zip(pat.patterns, names):
+                        if not self._match(p, self.getattr(v, n, None, pat), env, frame):
+                            return False
+            else:
+                raise Incomplete(f"class pattern with {cls!r}")
+            for n, p in zip(pat.kwd_attrs, pat.kwd_patterns):
+                try:
+                    val = self.getattr(v, n, None, pat)
+                except PyRaise:
+                    return False
+                if not self._match(p, val, env, frame):
+                    return False
+            return True
+        raise Incomplete(f"pattern {t.__name__}")
 
     def assign(self, tgt, v, env: Env, frame: Frame):
         t = type(tgt)
